@@ -44,8 +44,8 @@ OnTrick(s, e) == RepIf(e.got # TrickDecode(e.raw), s, V("trick-mode-decode", s, 
 
 OnDur(s, e) ==
   LET got == <<e.secs, e.nanos>> IN
-  RepIf(got # DurationLo(e.base, e.ext) /\ got # DurationHi(e.base, e.ext), s,
-        V("duration", s, e, [base |-> e.base, ext |-> e.ext, got |-> got, want |-> DurationLo(e.base, e.ext)]))
+  RepIf(got # DurationHi(e.base, e.ext), s,       \* the sum, then truncated to nanoseconds (not each term truncated on its own)
+        V("duration", s, e, [base |-> e.base, ext |-> e.ext, got |-> got, want |-> DurationHi(e.base, e.ext)]))
 
 Step(s, e, i) ==
   LET s0 == [s EXCEPT !.at = i] IN
